@@ -600,6 +600,8 @@ class Normalizer:
                 sub = _Subst(mapping)
                 idx = blk.index(st)
                 del blk[idx]
+                if not blk and blk is not getattr(holder, "orelse", None) and blk is not getattr(holder, "finalbody", None):
+                    blk.append(ast.copy_location(ast.Pass(), st))
                 for i, b in enumerate(func.body):
                     func.body[i] = sub.visit(b)
                 # alias used as the base of a store/delete target: ``alias[...] = v`` / ``del alias[...]``
